@@ -41,6 +41,7 @@ type Solver struct {
 	log       io.Writer
 	dead      bool
 	lines     chan string
+	stack     []*Term
 }
 
 func solverArgv(kind string, timeoutMs int) []string {
@@ -87,7 +88,7 @@ func NewSolver(kind string, timeoutMs int) (*Solver, error) {
 	if kind == "cvc5" {
 		s.send("(set-logic QF_BV)\n")
 	}
-	s.send("(set-option :produce-models true)\n")
+	s.send("(set-option :produce-models true)\n(set-option :global-declarations true)\n")
 	return s, nil
 }
 
@@ -158,31 +159,50 @@ func (s *Solver) define(sb *strings.Builder, t *Term) {
 	}
 }
 
-// Check decides satisfiability of the conjunction of the given Bool terms.
-// If vars != nil and the result is sat, a model for those variables is returned.
-func (s *Solver) Check(asserts []*Term, vars []*Term) (Result, Model, error) {
+// Check decides satisfiability of pc ∧ extra. The path condition is kept asserted on the solver's
+// stack (one push level per conjunct) and only the suffix that differs from the previous query is
+// popped and re-asserted, so consecutive queries along one path (and along sibling paths of the
+// depth-first exploration) cost one assertion each. If vars != nil and the result is sat, a model
+// for those variables is returned.
+func (s *Solver) Check(pc []*Term, vars []*Term) (Result, Model, error) {
 	start := time.Now()
 	defer func() { s.Time += time.Since(start) }()
 	s.Queries++
+	if len(pc) == 0 {
+		return Sat, Model{}, nil
+	}
+	extra := pc[len(pc)-1]
+	pc = pc[:len(pc)-1]
 	var sb strings.Builder
-	for _, a := range asserts {
+	for _, a := range pc {
 		if a.IsFalse() {
 			s.UnsatN++
 			return Unsat, nil, nil
 		}
-		s.define(&sb, a)
 	}
+	if extra.IsFalse() {
+		s.UnsatN++
+		return Unsat, nil, nil
+	}
+	// common prefix with what is asserted
+	k := 0
+	for k < len(s.stack) && k < len(pc) && s.stack[k] == pc[k] {
+		k++
+	}
+	if n := len(s.stack) - k; n > 0 {
+		fmt.Fprintf(&sb, "(pop %d)\n", n)
+		s.stack = s.stack[:k]
+	}
+	for _, a := range pc[k:] {
+		s.define(&sb, a)
+		fmt.Fprintf(&sb, "(push 1)\n(assert %s)\n", a.ref())
+		s.stack = append(s.stack, a)
+	}
+	s.define(&sb, extra)
 	for _, v := range vars {
 		s.define(&sb, v)
 	}
-	sb.WriteString("(push 1)\n")
-	for _, a := range asserts {
-		if a.IsTrue() {
-			continue
-		}
-		fmt.Fprintf(&sb, "(assert %s)\n", a.ref())
-	}
-	sb.WriteString("(check-sat)\n")
+	fmt.Fprintf(&sb, "(push 1)\n(assert %s)\n(check-sat)\n", extra.ref())
 	s.send(sb.String())
 	line, err := s.readLine()
 	if err != nil {
@@ -200,8 +220,7 @@ func (s *Solver) Check(asserts []*Term, vars []*Term) (Result, Model, error) {
 		res = Unknown
 		s.UnknownN++
 	default:
-		// (error ...) or anything unexpected: inconclusive
-		s.send("(pop 1)\n")
+		// (error ...) or anything unexpected: inconclusive; the caller restarts the solver
 		s.UnknownN++
 		return Unknown, nil, fmt.Errorf("solver %s said: %s", s.name, line)
 	}
@@ -221,7 +240,6 @@ func (s *Solver) Check(asserts []*Term, vars []*Term) (Result, Model, error) {
 		}
 		model, err = parseModel(txt)
 		if err != nil {
-			s.send("(pop 1)\n")
 			return Unknown, nil, err
 		}
 	}
